@@ -91,7 +91,7 @@ type Product struct {
 type Rule struct{ Cond, Cluster string }
 
 type SubCluster struct {
-	Name     string // "GSLB_BLACKHOLE" is the blackhole (no Backends)
+	Name     string // "GSLB_BLACKHOLE" is the blackhole (no Backends); any other name without Backends = an empty sub-cluster
 	Weight   int
 	Backends []*Backend
 }
@@ -278,6 +278,9 @@ func writeDataConf(root string, ver string, products []Product, defaultProduct s
 			if s.Name == "GSLB_BLACKHOLE" {
 				hasBH = true
 				continue
+			}
+			if len(s.Backends) == 0 {
+				continue // a sub-cluster named in gslb.data but absent from cluster_table.data: it has no backend
 			}
 			bs := []M{}
 			for _, b := range s.Backends {
